@@ -27,3 +27,49 @@ package bfe_route
 //@   ensures[no_matching_rule_is_an_error_and_names_no_cluster] !basicHit && (forall k int :: 0 <= k && k < len(rules) ==> !condMatch(rules[k].Cond, req)) ==> result0 != nil && req.Route.ClusterName == ""
 //@   ensures[error_names_no_cluster] result0 != nil ==> req.Route.ClusterName == "" && req.Route.Error == result0
 //@   loop 1 invariant[no_earlier_rule_matched] clusterName == "" && (forall j int :: 0 <= j && j <= rangeindex ==> !condMatch(rules[j].Cond, req))
+
+//@ package_invariant[no_product_error] ErrNoProduct != nil
+
+//@ func hostnameStrip
+//@   props C10
+//@   nopanic
+//@   modifies nothing
+//@   ensures[port_is_dropped] result0 == firstField(hostname, ":")
+
+//@ spec hostKey(host string) string := revFqdn(firstField(toLower(host), ":"))
+//@ spec hostProduct(t *trie.Trie, key string) string := abstract
+//@ spec hostTag(t *trie.Trie, key string) string := abstract
+
+//@ func (*HostTable).findHostRoute
+//@   props C10
+//@   requires t != nil
+//@   modifies nothing
+//@   note the host trie stores only route values (as buildHostRoute does); the type assertion on its result is assumed to succeed
+//@   ensures[miss_yields_an_empty_route] result1 != nil ==> result0.product == "" && result0.tag == ""
+//@   ensures[miss_is_the_no_product_error] result1 != nil ==> result1 == ErrNoProduct
+//@   ensures[hit_iff_the_trie_has_the_normalised_host] (result1 == nil) <==> (t.hostTrie != nil && trieHit(t.hostTrie, hostKey(host)))
+//@   assumes[names_the_entry_found] result1 == nil ==> result0.product == hostProduct(t.hostTrie, hostKey(host)) && result0.tag == hostTag(t.hostTrie, hostKey(host))
+
+//@ func (*HostTable).findVipRoute
+//@   props C10
+//@   nopanic
+//@   requires t != nil
+//@   modifies nothing
+//@   ensures[hit_iff_vip_configured] (result1 == nil) <==> has(t.vipTable, vip)
+//@   ensures[hit_yields_the_vip_product] result1 == nil ==> result0.product == t.vipTable[vip] && result0.tag == ""
+//@   ensures[miss_yields_an_empty_route] result1 != nil ==> result0.product == "" && result0.tag == ""
+//@   ensures[miss_is_the_no_product_error] result1 != nil ==> result1 == ErrNoProduct
+
+//@ func (*HostTable).LookupHostTagAndProduct
+//@   props C10
+//@   nopanic
+//@   requires t != nil && req != nil && req.HttpRequest != nil && req.Session != nil
+//@   modifies req.Route.HostTag, req.Route.Product, req.Route.Error
+//@   ensures[error_is_recorded_on_the_request] req.Route.Error == result0
+//@   let key := hostKey(req.HttpRequest.Host)
+//@   let hit := t.hostTrie != nil && trieHit(t.hostTrie, key)
+//@   let vipHit := req.Session.Vip != nil && has(t.vipTable, ipString(req.Session.Vip))
+//@   ensures[host_entry_wins] hit ==> result0 == nil && req.Route.Product == hostProduct(t.hostTrie, key) && req.Route.HostTag == hostTag(t.hostTrie, key)
+//@   ensures[then_the_vip_of_the_connection] !hit && vipHit ==> result0 == nil && req.Route.Product == t.vipTable[ipString(req.Session.Vip)] && req.Route.HostTag == ""
+//@   ensures[then_the_default_product] !hit && !vipHit && t.defaultProduct != "" ==> result0 == nil && req.Route.Product == t.defaultProduct && req.Route.HostTag == ""
+//@   ensures[otherwise_rejected_without_a_product] !hit && !vipHit && t.defaultProduct == "" ==> result0 == ErrNoProduct && req.Route.Product == "" && req.Route.HostTag == ""
